@@ -45,15 +45,6 @@ def run(ck):
         ck.violation({"property": "C01", "kind": "model/implementation disagree; the C01 monitors still accept every observed trace",
                       "case": worst, "broken": "correspondence Ingest.sstep / PushHandler.gstep vs writer/service"}, no_input=True)
     ic.coverage_level1(ck, res)
-    # recorded finding: a request accounted with size 0 is never flushed (can_always_drain_any_size_refuted)
-    known = ck.known_findings()
-    for c in res["cases"]:
-        if c.get("class") == "corpus:zero-size" and "zero-size-request-never-flushed" in known:
-            evs = [[e for e in (l or [])] for l in (c.get("obs") or [])]
-            before = [e for l in evs[:3] for e in l]
-            if not any(e["t"] in ("swap", "send", "res") for e in before):
-                ck.report_known("zero-size-request-never-flushed",
-                                "Request(1 row, Size 0); PlanFlush; PlanFlush -> no swap, no Do, promise 1 not completed (it is sent only together with the later request of size 9)")
     run_http(ck)
 
 
